@@ -7,6 +7,7 @@ import (
 	"fmt"
 	"math/rand"
 	"os"
+	"reflect"
 	"sort"
 	"strings"
 	"sync"
@@ -102,6 +103,7 @@ func TestCheck(t *testing.T) {
 	for _, kind := range []string{"mock", "tcp"} {
 		kind := kind
 		r.Case("reverse-idle/"+kind, func(c *h.Case) { reverseIdle(c, kind) })
+		r.Case("reverse-stray-results/"+kind, func(c *h.Case) { reverseStray(c, kind) })
 	}
 	r.Case("udp-wrap/sequential", func(c *h.Case) { udpWrap(c, 0) })
 	r.Case("udp-wrap/pending-across-wrap", func(c *h.Case) { udpWrap(c, 3) })
@@ -674,6 +676,88 @@ func reverseIdle(c *h.Case, kind string) {
 		}
 	}
 	r.Distinct("reverse-idle|" + kind)
+}
+
+// reverseStray: several reverse calls reach the provider in one batch; some callers give up
+// before the provider posts the results, so the posted batch carries results that match no
+// pending call (also a batch posted twice). The callers that still wait must get their own.
+func reverseStray(c *h.Case, kind string) {
+	r := c.R
+	rng := c.Rand()
+	for round := 0; round < r.Pick(6, 40); round++ {
+		svc := core.NewService()
+		caller := reverse.NewCaller(svc)
+		caller.HeartBeat = 0
+		caller.Timeout = 5 * time.Second
+		srv, err := peer.Start(kind, svc)
+		if err != nil {
+			r.Inconclusive(err.Error())
+			return
+		}
+		n := 2 + rng.Intn(5)
+		impatient := map[int]bool{}
+		for i := 0; i < n; i++ {
+			if rng.Intn(2) == 0 {
+				impatient[i] = true
+			}
+		}
+		impatient[rng.Intn(n-1)] = true // at least one stray in front of a live result
+		delete(impatient, n-1)          // and the last one waits
+		type out struct {
+			res string
+			err error
+		}
+		outs := make([]chan out, n)
+		// queue the calls one after the other before the provider listens: one batch, in order
+		for i := 0; i < n; i++ {
+			i := i
+			outs[i] = make(chan out, 1)
+			go func() {
+				ctx := context.Background()
+				if impatient[i] {
+					var cancel context.CancelFunc
+					ctx, cancel = context.WithTimeout(ctx, 40*time.Millisecond)
+					defer cancel()
+				}
+				res, err := caller.InvokeContext(ctx, "p", "work", []interface{}{fmt.Sprintf("job-%d", i)}, reflect.TypeOf(""))
+				o := out{err: err}
+				if err == nil && len(res) == 1 {
+					o.res, _ = res[0].(string)
+				}
+				outs[i] <- o
+			}()
+			time.Sleep(2 * time.Millisecond)
+		}
+		client := srv.NewClient()
+		client.Timeout = 5 * time.Second
+		prov := reverse.NewProvider(client, "p")
+		prov.RetryInterval = 10 * time.Millisecond
+		prov.AddFunction(func(id string) string {
+			time.Sleep(120 * time.Millisecond) // the impatient callers are gone by then
+			return "did " + id
+		}, "work")
+		go prov.Listen()
+		rep := map[string]interface{}{"kind": kind, "calls": n, "impatient": fmt.Sprint(impatient)}
+		for i := 0; i < n; i++ {
+			r.Eval(1)
+			select {
+			case o := <-outs[i]:
+				if impatient[i] {
+					continue
+				}
+				if o.err != nil {
+					c.Violation("reverse-call-lost-behind-a-stray-result:"+kind, fmt.Sprintf("call %d of a batch of %d (callers %v had given up): %v", i, n, impatient, o.err), rep)
+				} else if o.res != fmt.Sprintf("did job-%d", i) {
+					c.Violation("response-of-another-call:reverse:"+kind, fmt.Sprintf("call %d got %q", i, o.res), rep)
+				}
+			case <-time.After(10 * time.Second):
+				c.Violation("caller-never-returned:reverse-stray:"+kind, fmt.Sprintf("call %d still pending", i), rep)
+			}
+		}
+		go prov.Close()
+		srv.Close()
+		r.Distinct(fmt.Sprintf("reverse-stray|%s|%d", kind, n))
+	}
 }
 
 var _ = sort.Ints
